@@ -19,7 +19,7 @@ def names_for(n, variant):
     return NAME_POOLS[variant % len(NAME_POOLS)][:n]
 
 
-def render(n, direct, listed, fails, names, variant=0):
+def render(n, direct, listed, fails, names, variant=0, ignored=None, nulls=()):
     """Command file for the abstract program; textual order = numeric order."""
     lines = []
     for c in range(1, n + 1):
@@ -46,6 +46,10 @@ def render(n, direct, listed, fails, names, variant=0):
                 args.append("NL = [[%s]]" % ", ".join(nm))
         if c in fails:
             args.append("Fail = %s" % ("mpilot" if (variant + c) % 2 else "raw"))
+        if ignored and ignored.get(c):
+            args.append("Ignore = [%s]" % ", ".join(names[d - 1] for d in sorted(ignored[c])))
+        if c in nulls:
+            args.append("Null = yes")
         if variant % 3 == 2:
             lines.append("%s = Probe(\n    %s\n)" % (names[c - 1], ",\n    ".join(args)))
         else:
@@ -53,9 +57,9 @@ def render(n, direct, listed, fails, names, variant=0):
     return "\n".join(lines)
 
 
-def unfold(c, deps, names, memo):
+def unfold(c, deps, names, memo, nulls=()):
     if c not in memo:
-        memo[c] = (names[c - 1], tuple((names[d - 1], unfold(d, deps, names, memo)) for d in deps[c]))
+        memo[c] = None if c in nulls else (names[c - 1], tuple((names[d - 1], unfold(d, deps, names, memo, nulls)) for d in deps[c]))
     return memo[c]
 
 
@@ -83,12 +87,12 @@ def _worker_init():
 
 def replay_one(job):
     """job = (jid, n, direct, listed, fails, hist, variant) -> dict(trace record, projection)"""
-    jid, n, direct, listed, fails, hist, variant = job
+    jid, n, direct, listed, fails, hist, variant, ignored, nulls = job
     tracer = _W["tracer"]
     from mpilot.program import Program
 
     names = names_for(n, variant)
-    src = render(n, direct, listed, fails, names, variant)
+    src = render(n, direct, listed, fails, names, variant, ignored, nulls)
     tracer.reset()
     EV = tracer.EV
     res = {"id": jid, "src": src, "hist": hist, "load_error": None}
@@ -133,6 +137,7 @@ def replay_one(job):
         elif e["ev"] == "exec_end" and e["c"] in idx:
             ndone[idx[e["c"]]] += 1
     deps = _dep_order(n, direct, listed, variant)
+    rdeps = {c: [d for d in deps[c] if d not in ignored.get(c, ())] for c in deps}
     memo = {}
     bad_values = []
     finished = []
@@ -142,7 +147,7 @@ def replay_one(job):
         finished.append(fin)
         if fin:
             try:
-                exp = unfold(c, deps, names, memo)
+                exp = unfold(c, rdeps, names, memo, nulls)
             except RecursionError:
                 continue
             if cmd._result != exp:
@@ -150,7 +155,8 @@ def replay_one(job):
     res.update({"outcomes": outcomes, "nexec": nexec, "ndone": ndone, "finished": finished, "bad_values": bad_values,
                 "trace": {"id": jid, "strict": True,
                           "deps": {names[c - 1]: [names[d - 1] for d in deps[c]] for c in range(1, n + 1)},
-                          "fails": [names[c - 1] for c in sorted(fails)], "ev": list(EV)}})
+                          "fails": [names[c - 1] for c in sorted(fails)],
+                          "ignored": {names[c - 1]: [names[d - 1] for d in sorted(ignored.get(c, ()))] for c in range(1, n + 1)}, "ev": list(EV)}})
     return res
 
 
@@ -199,10 +205,11 @@ MPRUN_INVS = ["ExactlyOnce", "RunCompletes", "TermCorrect", "CyclicRejected", "A
 MPRUN_PROPS = ["NoReexec", "Quiescent", "FinishedStays"]
 
 
-def mprun_consts(N, calls, fail=0, dags=False, cyclic=False, memo=True, guard=True, reset=True, sweep=True, leaf="mixed"):
+def mprun_consts(N, calls, fail=0, dags=False, cyclic=False, memo=True, guard=True, reset=True, sweep=True, leaf="mixed", special=None, memokey="flag"):
     b = lambda x: "TRUE" if x else "FALSE"
     return {"N": N, "Memo": b(memo), "CycleGuard": b(guard), "ResetOnUnwind": b(reset), "Sweep": b(sweep),
-            "LeafKey": '"%s"' % leaf, "MaxStack": N + 2, "MaxCalls": calls, "MaxFail": fail,
+            "LeafKey": '"%s"' % leaf, "MaxStack": N + 2, "MaxCalls": calls, "MaxFail": fail, "MaxSpecial": fail if special is None else special,
+            "MemoKey": '"%s"' % memokey,
             "OnlyDags": b(dags), "OnlyCyclic": b(cyclic)}
 
 
@@ -222,9 +229,9 @@ def parse_terms(out):
     groups = defaultdict(set)
     n = 0
     for t in core.parse_printt(out, "TERM"):
-        _, direct, listed, fails, hist, pstate, err, nexec, ndone = t
+        _, direct, listed, fails, ignored, nulls, hist, pstate, err, nexec, ndone = t
         n += 1
-        key = (core.freeze(_fn(direct)), core.freeze(_fn(listed)), tuple(sorted(fails)), core.freeze(hist))
+        key = (core.freeze(_fn(direct)), core.freeze(_fn(listed)), tuple(sorted(fails)), core.freeze(hist), core.freeze(_fn(ignored)), tuple(sorted(nulls)))
         groups[key].add((pstate, err, tuple(_fnseq(nexec)), tuple(_fnseq(ndone))))
     return groups, n
 
@@ -246,11 +253,11 @@ def jobs_from_groups(groups, variants):
     jobs = []
     keys = []
     for key in sorted(groups):
-        direct, listed, fails, hist = key
+        direct, listed, fails, hist, ignored, nulls = key
         n = len(direct)
         for v in variants:
             jobs.append((len(jobs), n, {c + 1: list(direct[c]) for c in range(n)}, {c + 1: list(listed[c]) for c in range(n)},
-                         set(fails), [tuple(h) for h in hist], v))
+                         set(fails), [tuple(h) for h in hist], v, {c + 1: list(ignored[c]) for c in range(n)}, set(nulls)))
             keys.append(key)
     return jobs, keys
 
@@ -339,7 +346,7 @@ def validate_traces(chk, prop, records, module="MPRunAbsTrace", shards=None, lab
     return verdicts
 
 
-def decide(chk, prop, tlc_jobs, variants, strict_counts=True, sample_filter=None):
+def decide(chk, prop, tlc_jobs, variants, strict_counts=True, sample_filter=None, max_replays=None):
     """Run the TLC jobs in parallel, then replay + trace-validate every terminal state they report."""
     results = {}
 
@@ -365,6 +372,14 @@ def decide(chk, prop, tlc_jobs, variants, strict_counts=True, sample_filter=None
         g, n = parse_terms(r.out)
         for k, v in g.items():
             groups.setdefault(k, set()).update(v)
+    chk.cov["model_terminal_cases"] = len(groups)
+    if max_replays and len(groups) * len(variants) > max_replays:
+        # TLC explored and checked all of them; the implementation is driven through a seed-dependent sample
+        step = (len(groups) * len(variants) + max_replays - 1) // max_replays
+        allkeys = sorted(groups)
+        picked = {k for i, k in enumerate(allkeys) if (i + core.SEED) % step == 0}
+        groups = {k: v for k, v in groups.items() if k in picked}
+        chk.cov["replay_sampling"] = "1 of %d terminal cases (seed-dependent)" % step
     jobs, keys = jobs_from_groups(groups, variants)
     t0 = time.time()
     res = replay_many(jobs)
@@ -376,12 +391,12 @@ def decide(chk, prop, tlc_jobs, variants, strict_counts=True, sample_filter=None
         compare_replay(chk, prop, key, groups[key], r, strict_counts)
         if r.get("trace"):
             records.append(r["trace"])
-        direct, listed, fails, hist = key
+        direct, listed, fails, hist, ignored, nulls = key
         indeg = defaultdict(int)
         for c in range(len(direct)):
             for d in direct[c] + listed[c]:
                 indeg[d] += 1
-        if any(v >= 2 for v in indeg.values()) or any(listed) or len(hist) > 1:
+        if any(v >= 2 for v in indeg.values()) or any(listed) or len(hist) > 1 or any(ignored) or nulls:
             nontrivial.add(key)
         if sample_filter is None or sample_filter(key):
             if len(chk.cov["samples"]) < 4 and (len(nontrivial) % 997 == 1 or len(chk.cov["samples"]) == 0) and key in nontrivial:
@@ -404,13 +419,13 @@ def check_C01(tier):
     chk = core.Check("C01", tier)
     core.sut()
     if tier == "quick":
-        jobs = [("n3_dags_calls3_fail1", mprun_consts(3, 3, fail=1, dags=True), {"workers": 6}),
-                ("n4_dags_calls1", mprun_consts(4, 1, dags=True), {"workers": 10})]
+        jobs = [("n3_dags_calls3_special1", mprun_consts(3, 3, fail=1, special=1, dags=True), {"workers": 6}),
+                ("n4_dags_calls1", mprun_consts(4, 1, fail=0, special=0, dags=True), {"workers": 10})]
         variants = [core.SEED % 12]
     else:
-        jobs = [("n3_dags_calls3_fail1", mprun_consts(3, 3, fail=1, dags=True), {"workers": 4}),
-                ("n4_dags_calls2", mprun_consts(4, 2, dags=True), {"workers": 12}),
-                ("n3_live", mprun_consts(3, 2, fail=1, dags=True), {"workers": 2, "liveness": True, "report": False})]
+        jobs = [("n3_dags_calls3_special2", mprun_consts(3, 3, fail=1, special=2, dags=True), {"workers": 4}),
+                ("n4_dags_calls2_special1", mprun_consts(4, 2, fail=1, special=1, dags=True), {"workers": 12}),
+                ("n3_live", mprun_consts(3, 2, fail=1, special=1, dags=True), {"workers": 2, "liveness": True, "report": False})]
         variants = [(core.SEED + i) % 12 for i in (0, 1, 2, 5)]
     chk.cov["rule"] = ("TLC enumerates every acyclic program on N commands (every edge absent/direct/listed, optional failing command) "
                        "and every history of run()/result(c) calls; each terminal state is replayed on the real engine with probe commands "
@@ -419,7 +434,7 @@ def check_C01(tier):
     chk.cov["exhaustive"] = True
     chk.assumptions += ["Probe commands read every referenced result and return the term of what they read",
                         "the tracer wraps Command.result, Command.validate_params and every registered execute()"]
-    decide(chk, "C01", jobs, variants)
+    decide(chk, "C01", jobs, variants, max_replays=70000 if tier == "quick" else 600000)
     return chk.finish()
 
 
@@ -439,5 +454,5 @@ def check_C14(tier):
                        "non-trivial = all (every program is cyclic); distinct by (program, history)")
     chk.cov["exhaustive"] = True
     chk.assumptions += ["interpreter recursion limit lowered to 400 during replays (stack exhaustion shows as RecursionError cause)"]
-    decide(chk, "C14", jobs, variants, strict_counts=False)
+    decide(chk, "C14", jobs, variants, strict_counts=False, max_replays=80000 if tier == "quick" else 600000)
     return chk.finish()
